@@ -307,7 +307,68 @@ def body_animate(ctx, conv, offset=0.0):
               'patch k is the outline of the k-th cell with geometry, in linear order')
 
 
+def body_large(ctx, conv):
+    """Concrete datasets beyond the sizes of the symbolic cases (more than 2**16 cells, faces with up to twelve nodes):
+    patches against independent reference polygons, values, default limits, arrows."""
+    from harness import geomref
+    from symx import builders
+    if conv == 'cf1d-huge':
+        nj, ni = 260, 257
+        ds = builders.cf1d(nj, ni, lat=numpy.linspace(-44.0, -10.0, nj), lon=numpy.linspace(110.0, 158.0, ni))
+        dims = ('y', 'x')
+    elif conv == 'shoc-20k':
+        nj, ni = 130, 154
+        ds = builders.shoc_standard(nj, ni)
+        dims = ('j_centre', 'i_centre')
+    else:
+        ds = builders.ugrid(conv[5:])
+        dims = ('nface',)
+    cv = ds.ems
+    ref = geomref.check(ctx, ds, cv)
+    shape = tuple(ds.sizes[d] for d in dims)
+    N = int(numpy.prod(shape))
+    ctx.check(len(ref) == N, 'harness: one reference polygon per cell')
+    vals = (numpy.arange(N, dtype=float) * 0.5 - 7.0).reshape(shape)
+    ds['temp'] = (dims, vals)
+    ds['u'] = (dims, vals + 1.0)
+    ds['v'] = (dims, -vals)
+    present = [n for n in range(N) if ref[n] is not None]
+    coll = cv.make_poly_collection('temp')
+    paths = coll.get_paths()
+    ctx.check(len(paths) == len(present), 'one patch per cell that has geometry, none for holes')
+    bad = []
+    for k, n in enumerate(present[:len(paths)]):
+        ring = [tuple(float(c) for c in p) for p in paths[k].vertices]
+        want = [tuple(float(c) for c in p) for p in ref[n].exterior.coords]
+        if not pipeline.ring_matches(ring[:-1] if len(ring) == len(want) else ring, want[:-1]):
+            bad.append(n)
+    ctx.check(not bad, f"patch k is the outline of the k-th cell with geometry, in linear order (first bad: {bad[:3]})")
+    arr = numpy.asarray(coll.get_array())
+    ctx.check(len(arr) == len(present) and bool(numpy.array_equal(arr, vals.ravel()[present])), "patch k carries that cell's own value")
+    lo, hi = coll.get_clim()
+    ctx.check(float(lo) == float(vals.ravel()[present].min()) and float(hi) == float(vals.ravel()[present].max()), 'default colour limits span the plotted values')
+    import matplotlib.pyplot as plt
+    fig = plt.figure()
+    try:
+        ax = fig.add_subplot()
+        q = cv.make_quiver(ax, 'u', ds['v'], transform=ax.transData)
+        ctx.check(len(q.X) == N and len(q.U) == N, 'one arrow slot per cell in linear order')
+        cx = numpy.array([ref[n].centroid.x if ref[n] is not None else numpy.nan for n in range(N)])
+        cy = numpy.array([ref[n].centroid.y if ref[n] is not None else numpy.nan for n in range(N)])
+        if len(q.X) == N:
+            tol = 1e-6 if conv.startswith('mesh-') or conv == 'cf1d-huge' else None
+            if tol is not None:
+                ctx.check(bool(numpy.allclose(numpy.asarray(q.X, dtype=float), cx, atol=tol, equal_nan=True) and numpy.allclose(numpy.asarray(q.Y, dtype=float), cy, atol=tol, equal_nan=True)),
+                          'arrows sit at the face centres')
+            ctx.check(bool(numpy.array_equal(numpy.ma.filled(q.U, numpy.nan), (vals + 1.0).ravel()) and numpy.array_equal(numpy.ma.filled(q.V, numpy.nan), (-vals).ravel())),
+                      'arrows carry the components of the same cell')
+    finally:
+        plt.close(fig)
+
+
 def cases(tier):
+    for conv in ('mesh-nonagon', 'mesh-fan9', 'mesh-poly34567', 'cf1d-huge', 'shoc-20k'):
+        yield Case(f'large:{conv}', body_large, dict(conv=conv), max_paths=3)
     q = tier == 'quick'
     for conv in ('cf2d', 'shoc_simple'):
         yield Case(f'animate:{conv}', body_animate, dict(conv=conv), max_paths=3)
